@@ -146,7 +146,9 @@ class GreedySchedulingFromPlan(Scheduling):
         temporary_resources
 
         """
-        if cluster.is_occupied(machine):
+        # The planned machine may be unoccupied and still not ours to give:
+        # already handed to another task in this round, or reserved.
+        if cluster.is_occupied(machine) or machine not in temporary_resources:
             if temporary_resources:
                 # so greedy we pop the first resource available
                 machine = temporary_resources[0]
